@@ -137,10 +137,18 @@ theorem no_spurious_eof_clean (cfg : Cfg) (ahead early : Bytes) (up down : List 
     | false => rfl
     | true => exact absurd ((closes_iff_mem_eof_of_clean down hd).1 hx) hn
 
-/-- A CONNECT whose dial fails is answered 502 with a Warning header; nothing is tunnelled. -/
-theorem dial_failure_502_warning (cfg : Cfg) (early : Bytes) (up down : List Ev) :
-    let o := handleConnect cfg .refused early up down
-    o.status = 502 ∧ o.warning = true ∧ o.toTarget = [] ∧ o.toClient = [] := by
+/-- A CONNECT whose dial fails is answered 502 with a Warning header — for every kind of dial
+error (refused, timeout, EOF, DNS, context deadline, anything else): never 504 or another status —
+nothing is tunnelled, and the connection keeps serving. -/
+theorem dial_failure_502_warning (cfg : Cfg) (k : DialErr) (early : Bytes) (up down : List Ev) :
+    let o := handleConnect cfg (.failed k) early up down
+    o.status = 502 ∧ o.warning = true ∧ o.toTarget = [] ∧ o.toClient = [] ∧ o.kept = true ∧ o.released = false := by
+  simp [handleConnect, handleConnectWith]
+
+/-- The answer to a failed dial does not depend on the kind of error. -/
+theorem dial_failure_answer_independent_of_error_kind (cfg : Cfg) (k k' : DialErr) (early : Bytes)
+    (up down : List Ev) :
+    handleConnect cfg (.failed k) early up down = handleConnect cfg (.failed k') early up down := by
   simp [handleConnect, handleConnectWith]
 
 /-- A CONNECT whose dial succeeds is answered 200 on every path. -/
